@@ -29,6 +29,14 @@ CLAIMED = {
          "re-establish the representation invariant `no cell is stored outside the visible grid` -- which is what makes 'discarded "
          "characters never reappear' a per-call obligation instead of a statement about edit sequences. IRM drawing is draw()'s contract (C04).",
     design="5 C13", technique="Verus contracts + loop invariants over the row map on the verbatim bodies; wf item 'no hidden cells' as pre/postcondition"),
+ 'C06': dict(
+    text="Deductive proof, for every geometry, region, cursor row and count in {absent} U [0,9999], that index/linefeed at the bottom margin "
+         "and reverse_index at the top margin move every row of the region by exactly one (row-level postcondition over the observable "
+         "cells, so never-written rows are covered), blank the vacated row, leave rows outside the region and the cursor row untouched, and "
+         "away from the margin only move the cursor; that insert_lines/delete_lines act only inside the region, shift rows cursor..bottom by "
+         "min(n, available), blank the vacated rows and return the cursor to column 0; and that set_margins accepts exactly regions of >= 2 rows "
+         "after clamping, homes the cursor (DECOM-aware) and is removed by `CSI r`.",
+    design="5 C06", technique="Verus contracts + row-shift loop invariants on the verbatim bodies"),
 }
 NA = {}
 checks = []
